@@ -2,7 +2,7 @@
 
 State lives in FrameRenderHandle.render: Mutex<FrameRender<S>>; `Rendering` is the in-progress mark.
 """
-from ..facts import callee, op_place, op_local, place_str, pos_line
+from ..facts import callee, op_place, op_local, op_const_int, place_str, pos_line
 from ..mirutil import (Defs, access_path, alias_closure, find_path_edges, succ_edges, switch_subject,
                        ret_blocks, const_explore, strip_generics)
 
@@ -660,14 +660,38 @@ def rule_wait(ctx, infos):
                     taken |= alias_closure(f, {s["result"]}, through_try=False)
             sw = set()
             enter_edges = set()
+            direct = False
+            direct_edges = set()
             for x in range(len(f.blocks)):
+                direct = False
                 sub = switch_subject(f, defs, x)
-                if sub and sub[0] == "discr" and len(sub[1]) == 1 and sub[1][0] in taken:
+                hit = bool(sub and sub[0] == "discr" and len(sub[1]) == 1 and sub[1][0] in taken)
+                # the state read in place, through the guard (`while matches!(*guard, Rendering)`)
+                if not hit and sub and sub[0] == "discr" and len(sub[1]) == 2 and sub[1][1] == "*" and info.guard_root(sub[1][0]) is not None:
+                    hit = direct = True
+                if hit:
                     sw.add(x)
                     tt = f.term(x)
                     for v, y in tt[2]:
                         if v == ridx:
-                            enter_edges.add((x, y, v))
+                            # `matches!(state, Rendering)`: the arm only sets a bool that is branched on next; the edge that is
+                            # taken exactly when the state is Rendering is the true edge of that branch
+                            bl = [st[1][0] for st in f.stmts(y) if st[0] == "=" and len(st[1]) == 1 and st[2][0] == "use"
+                                  and op_const_int(st[2][1]) == 1 and f.local_ty(st[1][0]) == "bool"]
+                            z, hops = y, 0
+                            while f.term(z)[0] == "goto" and hops < 3:
+                                z, hops = f.term(z)[1], hops + 1
+                            tz = f.term(z)
+                            if direct and bl and tz[0] == "switch" and op_local(tz[1]) in bl and [vv for vv, _ in tz[2]] == ["0"]:
+                                enter_edges.add((z, tz[3], "otherwise"))
+                                direct_edges.add((z, tz[3], "otherwise"))
+                            else:
+                                enter_edges.add((x, y, v))
+                                if direct:
+                                    direct_edges.add((x, y, v))
+                    if ridx is not None and not any(v == ridx for v, _ in tt[2]) and len(tt[2]) >= 1:
+                        # `switch d [other variants ..] otherwise -> Rendering arm`
+                        pass
             path = find_path_edges(f, [tgt], lambda x: x == b, avoid_block=lambda x: x in sw)
             if path is None and sw:
                 ctx.ok(rid, "wait-recheck", "every path from wait's return back to wait re-reads the state discriminant", nontrivial=True, fn=f)
@@ -683,8 +707,8 @@ def rule_wait(ctx, infos):
             over = {s["bb"] for s in info.stores if s["kind"] == "store"}
             for (x, y, v) in enter_edges:
                 path = find_path_edges(f, [y], lambda z: z == b, avoid_block=lambda z: z in over)
-                if y in over:
-                    path = None
+                if y in over or (x, y, v) in direct_edges:
+                    path = None         # read in place: nothing was taken out of the guard, nothing to restore
                 if path is None:
                     ctx.ok(rid, "wait-restores-Rendering", "state restored before waiting", fn=f)
                 else:
